@@ -142,6 +142,21 @@ def binop(op, a, b):
     return lift(simp(r), ty)
 
 
+def sigbits(t):
+    """number of possibly non-zero low bits of a bit-vector term (syntactic: zero extension / concat with zero / literal)"""
+    w = t.size()
+    if z3.is_bv_value(t):
+        return t.as_long().bit_length()
+    k = t.decl().kind()
+    if k == z3.Z3_OP_ZERO_EXT:
+        return w - t.params()[0]
+    if k == z3.Z3_OP_CONCAT:
+        first = t.arg(0)
+        if z3.is_bv_value(first) and first.as_long() == 0:
+            return w - first.size()
+    return w
+
+
 def ovf_op(op, a, b):
     ty = a.ty; w = WIDTH[ty]; sg = signed(ty)
     if a.conc and b.conc:
@@ -151,7 +166,11 @@ def ovf_op(op, a, b):
     x, y = bv(a), bv(b)
     ext = (lambda t: z3.SignExt(w, t)) if sg else (lambda t: z3.ZeroExt(w, t))
     if op == 'Mul':
-        X, Y = ext(x), ext(y); full = X * Y
+        if not sg and sigbits(x) + sigbits(y) <= w:
+            return Tup(lift(simp(x * y), ty), mkbool(False))      # zero-extended operands: the product fits by construction
+        res = x * y
+        o = z3.Not(z3.And(z3.BVMulNoOverflow(x, y, sg), z3.BVMulNoUnderflow(x, y))) if sg else z3.Not(z3.BVMulNoOverflow(x, y, False))
+        return Tup(lift(simp(res), ty), lift(simp(o), 'bool'))
     else:
         e1 = (lambda t: z3.SignExt(1, t)) if sg else (lambda t: z3.ZeroExt(1, t))
         X, Y = e1(x), e1(y); full = X + Y if op == 'Add' else X - Y
@@ -264,7 +283,8 @@ class Exec:
         self.solver = z3.Solver()
         self.nq = 0; self.solver_s = 0.0; self.aux = None; self.nq_aux = 0
         self.defer = False; self.deferred = []; self.nodefer_sites = set(); self.n_deferred = 0
-        self.pc = [[]]; self._vars = {}
+        self.pc = [[]]; self._vars = {}; self._local_cache = {}; self._keep = []; self.nq_cached = 0
+        self.sq_abstract = False; self.n_sq = 0
         self.paths = 0; self.steps = 0
         self.panics = []                      # (kind, msg, site, model_inputs, extra)
         self.inputs = []                      # (name, z3 var)
@@ -316,7 +336,7 @@ class Exec:
                 todo.extend(z3.Not(x) for x in c.arg(0).children()); continue
             if z3.is_true(c):
                 continue
-            self.solver.add(c); self.pc[-1].append(c)
+            self.solver.add(c); self.pc[-1].append(c); self._keep.append(c)   # kept alive: AST ids key the local-query cache
 
     def vars_of(self, t):
         k = t.get_id()
@@ -355,6 +375,11 @@ class Exec:
             for i, cv in enumerate(cvars):
                 if not picked[i] and cv & vs:
                     picked[i] = True; vs |= cv; changed = True
+        key = (cond.get_id(), tuple(sorted(cons[i].get_id() for i in range(len(cons)) if picked[i])))
+        hit = self._local_cache.get(key)
+        if hit is not None:
+            self.nq_cached += 1
+            return hit
         self.nq += 1
         t0 = time.time()
         s = z3.Solver()
@@ -365,7 +390,10 @@ class Exec:
         self.solver_s += time.time() - t0
         if r == z3.unknown:
             raise Unsupported('solver unknown (local)')
-        return (r == z3.sat), (s.model() if r == z3.sat else None)
+        res = (r == z3.sat), (s.model() if r == z3.sat else None)
+        self._local_cache[key] = res
+        self._keep.append(cond)          # keep the AST alive so that its id is not reused
+        return res
 
     def possible(self, cond, site=None):
         """can `cond` hold on the current path? A stand-alone query (no path condition) is tried first: if `cond` is
@@ -377,13 +405,15 @@ class Exec:
             self.aux = z3.Solver()
         self.nq_aux += 1
         t0 = time.time()
-        self.aux.push(); self.aux.add(cond); r = self.aux.check(); self.aux.pop()
+        one = z3.Solver(); one.add(cond); r = one.check()
         self.solver_s += time.time() - t0
         if r == z3.unsat:
             return False, None
-        return self.check(cond)
+        # one-shot solver on the cone of influence: z3's bit-blasting tactic is far better at arithmetic obligations
+        # than the incremental core that follows the path
+        return self.check_local(cond)
 
-    def flush_deferred(self, batch=128):
+    def flush_deferred(self, batch=24):
         """discharge the deferred stand-alone obligations in batches; returns the set of sites whose obligation is
         not valid on its own (these must be re-checked under their path condition: rerun with nodefer_sites)"""
         if self.aux is None:
@@ -396,7 +426,8 @@ class Exec:
                 return
             self.nq_aux += 1
             t0 = time.time()
-            self.aux.push(); self.aux.add(z3.Or(*[c for c, _ in lst])); r = self.aux.check(); self.aux.pop()
+            one = z3.Solver()                      # one-shot: bit-blasting tactic, much faster than the incremental core
+            one.add(z3.Or(*[c for c, _ in lst])); r = one.check()
             self.solver_s += time.time() - t0
             if r == z3.unsat:
                 return
@@ -414,6 +445,32 @@ class Exec:
             go([x for x in items[i:i + batch] if x[1] not in failing])
         return failing
 
+    def abstract_square(self, st, a):
+        """x*x for a symbolic x is replaced by a fresh variable sq with 0 <= sq <= 2^(2k), where 2^k bounds |x| on this
+        path (k found by solver queries). Sound over-approximation of the product; the pairing (x, sq) is recorded in
+        self.squares so that an oracle can tie sq to the value it expects to be squared."""
+        w = WIDTH[a.ty]
+        key = a.t.get_id()
+        squares = st.env.get('squares', ())
+        for (kid, x, sq, k) in squares:
+            if kid == key:
+                return Tup(V(sq, a.ty), mkbool(False))
+        k = None
+        for cand in (13, 14, 15, 16, 24, 31):
+            if 2 * cand + 1 > w: break
+            lim = z3.BitVecVal(1 << cand, w)
+            ok, _ = self.check_local(z3.Or(a.t >= lim, a.t <= -lim) if signed(a.ty) else z3.UGE(a.t, lim))
+            if not ok:
+                k = cand; break
+        if k is None:
+            return ovf_op('Mul', a, a)
+        self.n_sq += 1
+        self._keep.append(a.t)
+        sq = z3.BitVec('sq_%d' % key, w)
+        st.env['squares'] = squares + ((key, a.t, sq, k),)
+        self.assume(z3.And(sq >= 0, sq <= z3.BitVecVal(1 << (2 * k), w)) if signed(a.ty) else z3.ULE(sq, z3.BitVecVal(1 << (2 * k), w)))
+        return Tup(V(sq, a.ty), mkbool(False))
+
     def model(self):
         self.nq += 1
         t0 = time.time()
@@ -430,7 +487,8 @@ class Exec:
             v = z3.FP(name, z3.Float64())
         else:
             v = z3.BitVec(name, WIDTH[ty])
-        self.inputs.append((name, v, ty))
+        if not any(n == name for n, _, _ in self.inputs):
+            self.inputs.append((name, v, ty))
         return V(v, ty)
 
     def model_inputs(self, m):
@@ -772,6 +830,8 @@ class Exec:
                 return binop(name, a, b)
             if name.endswith('WithOverflow'):
                 a, b = [self.operand(st, fr, x) for x in split_top(inner)]
+                if self.sq_abstract and name == 'MulWithOverflow' and not a.conc and not b.conc and a.t.eq(b.t):
+                    return self.abstract_square(st, a)
                 return ovf_op(name[:3], a, b)
             if name in ('Not', 'Neg'):
                 return unop(name, self.operand(st, fr, inner))
